@@ -23,7 +23,7 @@ const FIELD_NAMES: &[&str] = &[
     "a", "b", "c", "lorem", "ipsum", "ident", "attrs", "vis", "ty", "data", "generics", "bounds",
     "default", "discriminant", "fields", "r#type", "skip", "e",
 ];
-const VARIANT_NAMES: &[&str] = &["A", "B", "Cee", "Dee", "UnitOne", "Struct", "New", "r#Self"];
+const VARIANT_NAMES: &[&str] = &["A", "B", "Cee", "Dee", "UnitOne", "Struct", "New", "r#type", "r#Second", "r#fn", "HTTPServer", "snake_like"];
 const PATHS: &[&str] = &[
     "f", "Self::new", "Default::default", "my::module::func", "::std::default::Default::default",
     "make::<u8>",
@@ -423,7 +423,7 @@ pub fn arb_value(d: &mut D) -> String {
         // message must cut it at a character boundary
         8 => {
             let unit = *d.pick(&["\u{e9}", "\u{2192}", "\u{1F600}", "a\u{e9}", "x y \u{2192} "]);
-            format!("\"{}{}\"", "a".repeat(d.below(5)), unit.repeat(d.range(1, 48)))
+            format!("\"{}{}\"", "a".repeat(d.below(5)), unit.repeat(d.range(1, 160)))
         }
         _ => d.pick(VALS).to_string(),
     }
@@ -453,6 +453,11 @@ pub fn arb_item(d: &mut D, names: &[String], depth: usize) -> String {
             if d.ratio(1, 10) {
                 items.push(token_soup(d, 1));
             }
+            // ... or end too early (the parser runs out of input inside the list: its error has no token to point at)
+            let truncated = d.ratio(1, 8);
+            if truncated {
+                items.push(d.pick(&["x =", "x = 1 +", "default =", "x = -", "a::", "x = !", "x = y ."]).to_string());
+            }
             let sep = match d.below(12) {
                 0 => " ",
                 1 => ",, ",
@@ -460,7 +465,7 @@ pub fn arb_item(d: &mut D, names: &[String], depth: usize) -> String {
                 _ => ", ",
             };
             let (o, c) = *d.pick(&[("(", ")"), ("(", ")"), ("[", "]"), ("{", "}")]);
-            format!("{}{}{}{}{}", name, o, items.join(sep), if d.ratio(1, 6) { "," } else { "" }, c)
+            format!("{}{}{}{}{}", name, o, items.join(sep), if !truncated && d.ratio(1, 6) { "," } else { "" }, c)
         }
         _ => {
             // deep nesting
